@@ -30,12 +30,13 @@ WHEELS = "/opt/veriftools/wheels"
 
 def bootstrap():
     """install third-party helpers beside the repo's interpreter, offline"""
-    if os.path.isdir(os.path.join(DEPS, "icontract")):
+    if os.path.isdir(os.path.join(DEPS, "icontract")) and os.path.isdir(
+            os.path.join(DEPS, "networkx")):
         return
     os.makedirs(DEPS, exist_ok=True)
     subprocess.run(
         [PY, "-m", "pip", "install", "-q", "--no-index", "--find-links", WHEELS,
-         "--target", DEPS, "icontract", "jsonschema"],
+         "--target", DEPS, "--upgrade", "icontract", "jsonschema", "networkx"],
         stdout=subprocess.DEVNULL, stderr=subprocess.DEVNULL, check=False,
     )
 
